@@ -52,7 +52,7 @@ def strategy(tier):
 
 
 def hyp_examples(tier):
-    return 3000 if tier == "quick" else 120000
+    return 8000 if tier == "quick" else 120000
 
 
 def _name_stats(ir):
